@@ -1,19 +1,18 @@
 //go:build verif
 
 // Contracts for package mem/datamover, property C03 (comment-only; read by /verif/engine, never compiled into a build).
-// C03, decidable part: "No result depends on map iteration order" (the engine iterates a map in an ARBITRARY order).
+// C03, decidable part: "No result depends on map iteration order".
 //
-// ctrlMiddleware.endInflightTasks (Reset path) ranges over the maps CurrentTransaction.PendingRead / PendingWrite and
-// ends one tracing task per key. Its observable effect is the SEQUENCE of TaskEnd hook invocations (what every tracer
-// attached to the component sees, e.g. the row order of a DBTracer's "trace" table). The sequence is logged in the ghost
-// (c03EndN, c03EndSeq); the honest order-independence postcondition pins it as a function of the maps' contents:
-// the pending-read IDs in increasing order, then the pending-write IDs in increasing order.
-// The set part (members/complete/frame) holds; the order part (C03.endInflightTasks.deterministic*) does NOT hold for the
-// code as written -- see the report: the hooks are invoked in Go's randomized map order.
+// ctrlMiddleware.endInflightTasks (Reset path) ends one tracing task per key of the MAPS CurrentTransaction.PendingRead
+// (read phase of the log: [old(c03EndN), mid)) and CurrentTransaction.PendingWrite (write phase: [mid, c03EndN)).
+// The observable effect is the SEQUENCE of TaskEnd hook invocations (what every tracer attached to the component sees, e.g.
+// the row order of a DBTracer's "trace" table), logged in the ghost (c03EndN, c03EndSeq). Order-independence: the log is
+// pinned as a function of the map's CONTENTS -- exactly its keys (members, complete), in increasing order (deterministic).
+// History: before /repo commit 8468750f the function ranged over the map directly and the hooks ran in Go's randomized map
+// order (200 identical resets with 8 entries gave 8 distinct TaskEnd orders); the order clauses were not provable then.
 package datamover
 
-// ---- trusted: the tracing entry points end in arbitrary user hooks. Modelled as: the call is appended to the log,
-// nothing of the component is touched (same assumption as C18's `ext tracing.EndReqInOnReset`).
+// ---- trusted: tracing entry points end in arbitrary user hooks (assumed not to touch the component); EndTaskOnReset is logged.
 //@ ghost var c03EndN int
 //@ ghost var c03EndSeq map
 //@ ext tracing.EndTaskOnReset(domain, taskID)
@@ -23,10 +22,12 @@ package datamover
 //@ ext tracing.EndReqInOnReset(domain, id)
 //@   trusted
 //@   assigns nothing
+// slices.Sorted(maps.Keys(m)) is modelled natively by the engine (trusted standard library): a fresh, strictly ascending
+// slice of exactly the keys of m; SortedKeys_pos[k] is the index of key k.
 
+//@ pred c03LogKeeps(from) = forall k int :: k < from ==> c03EndSeq[k] == old(c03EndSeq)[k]
 //@ func c03PR(m) = m.comp.State.CurrentTransaction.PendingRead
 //@ func c03PW(m) = m.comp.State.CurrentTransaction.PendingWrite
-//@ pred c03LogKeeps(from) = forall k int :: k < from ==> c03EndSeq[k] == old(c03EndSeq)[k]
 
 //@ fn (*ctrlMiddleware).endInflightTasks
 //@   property C03
@@ -34,11 +35,11 @@ package datamover
 //@   label C03.endInflightTasks.reads.members
 //@   ensures old(c03EndN) <= mid && (forall k int :: old(c03EndN) <= k && k < mid ==> (c03EndSeq[k] in c03PR(m)))
 //@   label C03.endInflightTasks.reads.complete
-//@   ensures forall a uint64 :: (a in c03PR(m)) ==> old(c03EndN) <= posR[a] && posR[a] < mid && c03EndSeq[posR[a]] == a
+//@   ensures forall a uint64 :: (a in c03PR(m)) ==> 0 <= posR[a] && old(c03EndN) + posR[a] < mid && c03EndSeq[old(c03EndN) + posR[a]] == a
 //@   label C03.endInflightTasks.writes.members
 //@   ensures mid <= c03EndN && (forall k int :: mid <= k && k < c03EndN ==> (c03EndSeq[k] in c03PW(m)))
 //@   label C03.endInflightTasks.writes.complete
-//@   ensures forall a uint64 :: (a in c03PW(m)) ==> mid <= posW[a] && posW[a] < c03EndN && c03EndSeq[posW[a]] == a
+//@   ensures forall a uint64 :: (a in c03PW(m)) ==> 0 <= SortedKeys_pos[a] && mid + SortedKeys_pos[a] < c03EndN && c03EndSeq[mid + SortedKeys_pos[a]] == a
 //@   label C03.endInflightTasks.log.keeps
 //@   ensures c03LogKeeps(old(c03EndN))
 // ORDER: a function of the contents alone = increasing task ID within each phase
@@ -46,23 +47,35 @@ package datamover
 //@   ensures forall k int :: old(c03EndN) <= k && k + 1 < mid ==> c03EndSeq[k] < c03EndSeq[k+1]
 //@   label C03.endInflightTasks.deterministic.writes
 //@   ensures forall k int :: mid <= k && k + 1 < c03EndN ==> c03EndSeq[k] < c03EndSeq[k+1]
-// ground instances of the two clauses above (so that a violation comes back as a counterexample, not as `unknown`)
 //@   label C03.endInflightTasks.deterministic.reads.first2
 //@   ensures old(c03EndN) + 2 <= mid ==> c03EndSeq[old(c03EndN)] < c03EndSeq[old(c03EndN) + 1]
 //@   label C03.endInflightTasks.deterministic.writes.first2
 //@   ensures mid + 2 <= c03EndN ==> c03EndSeq[mid] < c03EndSeq[mid + 1]
 //@   assigns c03EndN, c03EndSeq
-//@   loop 0: ghost posR = idperm
-//@   loop 0: backedge posR = upd(posR, id, athead(c03EndN))
-//@   loop 0: invariant old(c03EndN) <= c03EndN && c03LogKeeps(old(c03EndN))
-//@   loop 0: invariant forall k int :: old(c03EndN) <= k && k < c03EndN ==> (c03EndSeq[k] in c03PR(m)) && visited(c03EndSeq[k])
-//@   loop 0: invariant forall a uint64 :: visited(a) ==> old(c03EndN) <= posR[a] && posR[a] < c03EndN && c03EndSeq[posR[a]] == a
+// loop 0: the read phase (posR = the position map of the sorted PendingRead keys, kept for loop 1 and the postconditions)
+//@   loop 0: ghost posR = SortedKeys_pos
+//@   loop 0: backedge posR = posR
+//@   loop 0: invariant posR == SortedKeys_pos && -1 <= rangeindex && rangeindex < len(c03PR(m)) && c03EndN == old(c03EndN) + rangeindex + 1 && c03LogKeeps(old(c03EndN))
+//@   label C03.endInflightTasks.reads.last.atloop
+//@   loop 0: invariant rangeindex >= 0 ==> (c03EndSeq[c03EndN - 1] in c03PR(m)) && posR[c03EndSeq[c03EndN - 1]] == rangeindex
+//@   label C03.endInflightTasks.reads.members.atloop
+//@   loop 0: invariant forall k int :: old(c03EndN) <= k && k < c03EndN ==> (c03EndSeq[k] in c03PR(m)) && posR[c03EndSeq[k]] == k - old(c03EndN)
+//@   label C03.endInflightTasks.reads.complete.atloop
+//@   loop 0: invariant forall a uint64 :: (a in c03PR(m)) && posR[a] <= rangeindex ==> c03EndSeq[old(c03EndN) + posR[a]] == a
+//@   label C03.endInflightTasks.deterministic.reads.atloop
+//@   loop 0: invariant forall k int :: old(c03EndN) <= k && k + 1 < c03EndN ==> c03EndSeq[k] < c03EndSeq[k+1]
+// loop 1: the write phase; the read phase [old(c03EndN), mid) is carried along unchanged
 //@   loop 1: ghost mid = c03EndN
 //@   loop 1: backedge mid = mid
-//@   loop 1: ghost posW = idperm
-//@   loop 1: backedge posW = upd(posW, id, athead(c03EndN))
-//@   loop 1: invariant old(c03EndN) <= mid && mid <= c03EndN && c03LogKeeps(old(c03EndN))
+//@   loop 1: invariant old(c03EndN) <= mid && -1 <= rangeindex && rangeindex < len(c03PW(m)) && c03EndN == mid + rangeindex + 1 && c03LogKeeps(old(c03EndN))
 //@   loop 1: invariant forall k int :: old(c03EndN) <= k && k < mid ==> (c03EndSeq[k] in c03PR(m))
-//@   loop 1: invariant forall a uint64 :: (a in c03PR(m)) ==> old(c03EndN) <= posR[a] && posR[a] < mid && c03EndSeq[posR[a]] == a
-//@   loop 1: invariant forall k int :: mid <= k && k < c03EndN ==> (c03EndSeq[k] in c03PW(m)) && visited(c03EndSeq[k])
-//@   loop 1: invariant forall a uint64 :: visited(a) ==> mid <= posW[a] && posW[a] < c03EndN && c03EndSeq[posW[a]] == a
+//@   loop 1: invariant forall a uint64 :: (a in c03PR(m)) ==> 0 <= posR[a] && old(c03EndN) + posR[a] < mid && c03EndSeq[old(c03EndN) + posR[a]] == a
+//@   loop 1: invariant forall k int :: old(c03EndN) <= k && k + 1 < mid ==> c03EndSeq[k] < c03EndSeq[k+1]
+//@   label C03.endInflightTasks.writes.last.atloop
+//@   loop 1: invariant rangeindex >= 0 ==> (c03EndSeq[c03EndN - 1] in c03PW(m)) && SortedKeys_pos[c03EndSeq[c03EndN - 1]] == rangeindex
+//@   label C03.endInflightTasks.writes.members.atloop
+//@   loop 1: invariant forall k int :: mid <= k && k < c03EndN ==> (c03EndSeq[k] in c03PW(m)) && SortedKeys_pos[c03EndSeq[k]] == k - mid
+//@   label C03.endInflightTasks.writes.complete.atloop
+//@   loop 1: invariant forall a uint64 :: (a in c03PW(m)) && SortedKeys_pos[a] <= rangeindex ==> c03EndSeq[mid + SortedKeys_pos[a]] == a
+//@   label C03.endInflightTasks.deterministic.writes.atloop
+//@   loop 1: invariant forall k int :: mid <= k && k + 1 < c03EndN ==> c03EndSeq[k] < c03EndSeq[k+1]
